@@ -14,18 +14,25 @@ THEOREMS = ["QExPy.Plot.C19_mask", "QExPy.Plot.C19_mask_none", "QExPy.Plot.C19_d
             "QExPy.Plot.C19_curve_value", "QExPy.Plot.C19_domain", "QExPy.Plot.C19_order_independent",
             "QExPy.Plot.C19_residual_panel", "QExPy.Plot.C19_hist", "QExPy.Plot.C19_hist_weights",
             "QExPy.Plot.C19_hist_unit_weights", "QExPy.Plot.C19_hist_density", "QExPy.Plot.C19_label"]
-RULE = ("seeded plots of 1-5 objects added in random order: data sets (x/y uncertainties none / "
-        "common / per point; names, units; passed as arrays, XYDataSet or MeasurementArrays; x-ranges "
-        "with bounds exactly on points, between points, outside), functions (8 formula families, "
-        "plain-number and measured parameters, own range or the plot domain), fit results of every "
-        "pre-set model and a custom model (added through Plot.fit and through plot(result), with "
-        "and without a fit range), histograms (integer bins, bins+range, uniform and non-uniform "
-        "explicit edges, samples exactly on edges; MeasurementArray or list input); the three "
-        "switches, label overrides, plot.xrange. Each plot is rendered by savefig on Agg and the "
-        "artists (Line2D data, error-bar segments, fill_between polygon, bar rectangles, axis "
-        "labels, legend texts) are read back, canonicalised and diffed with the model's draw "
-        "commands. Non-trivial = at least two object kinds on the plot and an x-range that removes "
-        "at least one point; distinct by hash of the case")
+RULE = ("seeded plot HISTORIES: 1-9 objects added in random order to one Plot, which is rendered, "
+        "then (85 % of the cases) further objects are added and/or the plot's x-range, the error-bar / "
+        "residual / legend switches and the label overrides are changed and it is rendered again "
+        "(2 or 3 renders); every render is compared with the model's render of the plot state at "
+        "that point. Objects: data sets (x/y uncertainties none / common / per point; names, units; "
+        "passed as arrays, XYDataSet or MeasurementArrays; x-ranges with bounds exactly on points, "
+        "between points, outside), functions (8 formula families, plain-number and measured "
+        "parameters, own range or the plot domain), fit results of every pre-set model and a custom "
+        "model (through Plot.fit and plot(result), with and without a fit range, a second Plot.fit "
+        "on the same data, Plot.fit on a histogram), histograms (integer bins, bins+range, uniform "
+        "and non-uniform explicit edges, named rules auto/sturges/sqrt/fd/doane/scott/rice/stone, "
+        "density=True, weights=[...], combinations; samples exactly on edges; MeasurementArray or "
+        "list input; two histograms on one plot). Each render goes through savefig on Agg and the "
+        "artists (Line2D data, error-bar segments, fill_between polygon, bar rectangles, axis labels, "
+        "legend texts and which artist carries which) are read back, canonicalised and diffed with "
+        "the model's draw commands; histogram bars are also compared with the values returned to "
+        "the caller and with numpy.histogram / numpy.histogram_bin_edges on the same arguments. "
+        "Non-trivial = at least two object kinds on the plot and an x-range that removes at least "
+        "one point; distinct by hash of the history")
 ASSUMPTIONS = ["matplotlib draws what its artists hold (Agg rasterisation is not inspected)",
                "numpy.histogram / numpy.linspace are exercised, not modelled beyond their contracts",
                "the Monte-Carlo fit curve is compared statistically (6 sigma of the sampling error "
@@ -35,8 +42,9 @@ TRUSTED = ["exercised not modelled: matplotlib artists API, numpy.histogram, num
            "fit formulas of the pre-set models are hand-mirrored from FITTERS and guarded by a "
            "source-text comparison (vf/plotgen.py: fitters_guard)"]
 LEVEL_TEXT = ("Lean 4 theorems about an executable render model (mask, linspace, domain, band, "
-              "histogram totals, labels, order independence); correspondence-led: the model's draw "
-              "commands are diffed with the matplotlib artists of the real plot on every run")
+              "histogram totals incl. weights and density, labels, order independence); "
+              "correspondence-led: the model's draw commands are diffed with the matplotlib artists "
+              "of the real plot after every render of a history, on every run")
 LEVEL_NOTE = ("partial: matplotlib and numpy.histogram are exercised, not modelled; the Monte-Carlo "
               "curve of a fit is checked statistically")
 TECHNIQUE = ("Lean 4 machine-checked proof over an executable model + differential correspondence "
@@ -526,6 +534,7 @@ def run_cases(ctx, cases):
                                 "rule" if isinstance(ob["bins"], str) else
                                 "bins+range" if ob["range"] else "bins")] += 1
                 dist["hist:density"] += 1 if ob.get("density") else 0
+                dist["hist:default-bins"] += 1 if ob.get("default_bins") else 0
                 dist["hist:weights"] += 1 if ob.get("weights") is not None else 0
             if ob["t"] == "dataset":
                 dist["dataset:" + ("range" if ob["range"] else "norange")] += 1
